@@ -192,7 +192,7 @@ def freeze(v, depth=0, event=False):
     return f"<{type(v).__name__}>"
 
 
-IGNORED_GLOBAL_PREFIXES = ("__ptera_", "_ptera__")
+IGNORED_GLOBAL_PREFIXES = ("__ptera", "_ptera")  # names reserved by ptera
 
 
 class World:
